@@ -262,6 +262,10 @@ impl Ctx {
             strict: false,
         }
     }
+    /// Same context, but tolerating no known finding (strict replay).
+    pub fn strict_clone(&self) -> Ctx {
+        Ctx { id: self.id.clone(), tier: self.tier, seed: self.seed, kf: self.kf.clone(), start: self.start, strict: true }
+    }
     /// Is the known finding `id` listed (and tolerance allowed)?
     pub fn tolerate(&self, id: &str) -> bool {
         !self.strict && self.kf.has(id)
